@@ -119,6 +119,18 @@ pub fn guarded<T>(f: impl FnOnce() -> T) -> Result<T, String> {
             .unwrap_or_else(|| "<non-string panic>".to_string())),
     }
 }
+/// Operand construction that goes through the library (e.g. `q * b + r`, `!a`) must not take the driver down:
+/// a panic there is recorded on stderr and the fallback operand is used; the operation itself is exercised,
+/// and judged, through the logged call forms.
+pub fn guarded_or<T>(fallback: T, f: impl FnOnce() -> T) -> T {
+    match catch_unwind(AssertUnwindSafe(f)) {
+        Ok(v) => v,
+        Err(_) => {
+            eprintln!("harness: operand construction panicked inside the library; using fallback operand");
+            fallback
+        }
+    }
+}
 /// outcome object: {"ok": value} or {"panic": message}
 pub fn outcome(r: Result<Value, String>) -> Value {
     match r {
